@@ -227,7 +227,7 @@ func Judge(o *reconlib.Outcome) vrun.Result {
 			continue
 		}
 		if c.Err != "" && c.CtxErr && fast {
-			return vrun.Violation("an API call issued during the outage was dropped: it ended with its 60 s context although the connection had recovered within 30 s", "outage-call-dropped:"+c.Name, map[string]any{"call": c, "recovery_secs": o.RecoverySecs})
+			return vrun.Violation("an API call issued during the outage was dropped: it ended with its 60 s context although the connection had recovered within 30 s", "outage-call-dropped:"+c.Name, map[string]any{"call": c, "recovery_secs": o.RecoverySecs, "trace": append(lifecycleTrace(o), callTrace(o)...)})
 		}
 		if c.Err != "" && !c.CtxErr {
 			return vrun.Violation("an API call issued during the outage failed", "outage-call-failed:"+c.Name, map[string]any{"call": c})
@@ -284,6 +284,26 @@ func completedResumes(o *reconlib.Outcome, id uuid.UUID) int {
 		}
 	}
 	return n
+}
+
+// callTrace lists the request/call related transport records (for witnesses).
+func callTrace(o *reconlib.Outcome) []string {
+	var res []string
+	for _, li := range o.LinkInfos {
+		for _, r := range li.Log {
+			switch m := r.Msg.(type) {
+			case *message.UpstreamCall:
+				res = append(res, fmt.Sprintf("link %d %s UpstreamCall id=%.8s name=%s ok=%v reached=%v t=%s", li.ID, r.Dir, m.CallID, m.Name, r.OK, r.Reached, r.VT.Format("04:05.000")))
+			case *message.UpstreamCallAck:
+				res = append(res, fmt.Sprintf("link %d %s UpstreamCallAck id=%.8s ok=%v t=%s", li.ID, r.Dir, m.CallID, r.OK, r.VT.Format("04:05.000")))
+			case *message.DownstreamCall:
+				res = append(res, fmt.Sprintf("link %d %s DownstreamCall req=%.8s ok=%v t=%s", li.ID, r.Dir, m.RequestCallID, r.OK, r.VT.Format("04:05.000")))
+			case *message.UpstreamOpenRequest, *message.UpstreamOpenResponse, *message.DownstreamOpenRequest, *message.DownstreamOpenResponse, *message.UpstreamMetadata, *message.UpstreamMetadataAck:
+				res = append(res, fmt.Sprintf("link %d %s %s ok=%v reached=%v t=%s", li.ID, r.Dir, r.Class, r.OK, r.Reached, r.VT.Format("04:05.000")))
+			}
+		}
+	}
+	return res
 }
 
 // lifecycleTrace is a compact transport-boundary trace of connection and stream lifecycle messages (for witnesses).
